@@ -148,13 +148,50 @@ const (
 	rInlineCopy     // rewritten: [inline other, copy]
 	rInlineUnescape // rewritten: [inline other, unescape]
 	numRoles
+	// overlapping roles: the field is listed as environment / hidden field AND has a rewriter chain. The documentation gives
+	// masking the say: a hidden field is not output, an environment field is nested with its raw value; the chain is unused.
+	rEnvCopy
+	rEnvUnescape
+	rEnvInlineCopy
+	rHiddenCopy
+	rHiddenUnescape
+	rHiddenInlineUnescape
+	numAllRoles
 )
 
-var roleNames = []string{"plain", "env", "hidden", "rw-copy", "rw-unescape", "rw-inline-copy", "rw-inline-unescape"}
+var roleNames = []string{"plain", "env", "hidden", "rw-copy", "rw-unescape", "rw-inline-copy", "rw-inline-unescape", "",
+	"env+rw-copy", "env+rw-unescape", "env+rw-inline-copy", "hidden+rw-copy", "hidden+rw-unescape", "hidden+rw-inline-unescape"}
 
-func (r role) rewritten() bool { return r >= rCopy }
-func (r role) inlines() bool   { return r == rInlineCopy || r == rInlineUnescape }
-func (r role) unescapes() bool { return r == rUnescape || r == rInlineUnescape }
+// base is the role that decides where (and whether) the field is output
+func (r role) base() role {
+	switch r {
+	case rEnvCopy, rEnvUnescape, rEnvInlineCopy:
+		return rEnv
+	case rHiddenCopy, rHiddenUnescape, rHiddenInlineUnescape:
+		return rHidden
+	}
+	return r
+}
+
+// chain is the role whose rewriter chain is configured for the field
+func (r role) chain() role {
+	switch r {
+	case rEnvCopy, rHiddenCopy:
+		return rCopy
+	case rEnvUnescape, rHiddenUnescape:
+		return rUnescape
+	case rEnvInlineCopy:
+		return rInlineCopy
+	case rHiddenInlineUnescape:
+		return rInlineUnescape
+	}
+	return r
+}
+
+func (r role) overlapped() bool { return r > numRoles }
+func (r role) rewritten() bool  { return r >= rCopy && r < numRoles }
+func (r role) inlines() bool    { return r == rInlineCopy || r == rInlineUnescape }
+func (r role) unescapes() bool  { return r == rUnescape || r == rInlineUnescape }
 
 // filler describes one non-distinguished field of the 16-field layout (index >= 2)
 type filler struct {
@@ -255,7 +292,7 @@ func newSetup(lay layout, roleA, roleB role) *setup {
 	ser := fluentdforward.SerializationConfig{RewriteFields: map[string][]bconfig.LogRewriterConfigHolder{}}
 	// environment and hidden lists in REVERSE schema order: the output must not depend on the order of these lists
 	for i := len(st.names) - 1; i >= 0; i-- {
-		switch st.roles[i] {
+		switch st.roles[i].base() {
 		case rEnv:
 			ser.EnvironmentFields = append(ser.EnvironmentFields, st.names[i])
 		case rHidden:
@@ -263,10 +300,10 @@ func newSetup(lay layout, roleA, roleB role) *setup {
 		}
 	}
 	st.envOrder = ser.EnvironmentFields
-	if c := chainFor(roleA, nameB); c != nil {
+	if c := chainFor(roleA.chain(), nameB); c != nil {
 		ser.RewriteFields[nameA] = c
 	}
-	if c := chainFor(roleB, nameA); c != nil {
+	if c := chainFor(roleB.chain(), nameA); c != nil {
 		ser.RewriteFields[nameB] = c
 	}
 	st.cfg = &fluentdforward.Config{
@@ -440,7 +477,7 @@ func (st *setup) expected(fields []string, unesc [2]string, unescaped bool, ts s
 	ex := &expectation{top: make(map[string][]parts, len(st.names)), env: make(map[string]string, 4), secs: uint32(ts.sec), nanos: uint32(ts.ns)}
 	for i, name := range st.names {
 		v := fields[i]
-		switch r := st.roles[i]; {
+		switch r := st.roles[i].base(); {
 		case r == rEnv:
 			ex.env[name] = v
 		case r == rHidden:
@@ -925,6 +962,40 @@ func enumerate(ctx *seq.Ctx) {
 								roleNames[rb], lengthClasses[b.li], classes[b.ci].name, ui)
 							unescaped := ui == 1
 							ctx.Case(id, true, id, func() (string, string) { return st.check(ctx, a, b, unescaped, tss[3]) })
+						}
+					}
+				}
+			}
+		}
+	}
+
+	// ---- overlapping roles: a field listed as environment / hidden field that ALSO has a rewriter chain, against every role of
+	// the other field; layouts 3 and 16 (+2 reserved), small value set
+	for _, cl := range layouts[:2] {
+		lay := cl.layout
+		for ra := role(0); ra < numAllRoles; ra++ {
+			for rb := role(0); rb < numAllRoles; rb++ {
+				if ra == numRoles || rb == numRoles || !(ra.overlapped() || rb.overlapped()) {
+					continue
+				}
+				if ctx.Stop() {
+					return
+				}
+				st := newSetup(lay, ra, rb)
+				ctx.Group("overlap/" + lay.String())
+				for ui := 0; ui < 2; ui++ {
+					for ai := range small {
+						for bi := range small {
+							if !ctx.Mine() {
+								ctx.Skip()
+								continue
+							}
+							a, b := &small[ai], &small[bi]
+							id := fmt.Sprintf("overlap/%s/A=%s:%d:%s/B=%s:%d:%s/u%d", lay, roleNames[ra], lengthClasses[a.li], classes[a.ci].name,
+								roleNames[rb], lengthClasses[b.li], classes[b.ci].name, ui)
+							nontrivial := a.s != "" || b.s != ""
+							unescaped := ui == 1
+							ctx.Case(id, nontrivial, id, func() (string, string) { return st.check(ctx, a, b, unescaped, tss[3]) })
 						}
 					}
 				}
